@@ -267,6 +267,23 @@ class Program:
         self.edges()
         return self._by_callee.get(d, [])
 
+    def collector_trace_impl(self):
+        """The collector's own `impl Trace` (what user Collect impls call into): the implementor is the context
+        itself or a reference to it. Returns {"trace_gc": def, "trace_gc_weak": def, "by_ref": bool} or None."""
+        for im in self.impls:
+            if im.get("trait") != "collect::Trace":
+                continue
+            t = self.ty(im["self"])
+            by_ref = False
+            if t.get("k") == "ref":
+                by_ref = True
+                t = self.ty(t["ty"])
+            if t.get("k") == "adt" and t.get("def") == "context::Context":
+                items = {i["name"]: norm(i["path"]) for i in im["items"]}
+                if "trace_gc" in items and "trace_gc_weak" in items:
+                    return {"trace_gc": items["trace_gc"], "trace_gc_weak": items["trace_gc_weak"], "by_ref": by_ref}
+        return None
+
     def vtable_slots(self):
         """Map GcVtable field index -> closure def stored there by the (single) initialiser
         `VtableFor::VTABLE`. Returns (slots, initialisers)."""
